@@ -165,6 +165,12 @@ Section Exact.
     flat_map C (map shared_copy [ast_tref t]) = [].
   Proof. intros _. cbn [map flat_map]. rewrite C_shared_copy_tref. reflexivity. Qed.
 
+  Lemma C_shared_copy_trefs (from : mtrefs) : forall f, In f (ast_trefs from) -> C (shared_copy f) = [].
+  Proof.
+    induction from as [|t r IH]; intros f Hf; cbn [ast_trefs In] in Hf; [contradiction|].
+    destruct Hf as [<-|Hf]; [apply C_shared_copy_tref|apply IH; exact Hf].
+  Qed.
+
   Theorem items_exact_all :
     (forall e, P_expr e) /\ (forall l, P_exprs l) /\ (forall l, P_whens l) /\ (forall o, P_opt o) /\
     (forall l, P_items l) /\ (forall t, P_tref t) /\ (forall l, P_trefs l) /\ (forall l, P_joins l) /\
@@ -241,9 +247,10 @@ Section Exact.
     (* mstmt *)
     - (* MSelect *) cbn [ast_stmt items]. node.
       rewrite C_wrap_with, C_ob_wrap.
-      assert (HJ := H2 (match ast_trefs from with f :: _ => [f] | [] => [] end) 0%nat).
-      assert (Hsh : flat_map C (map shared_copy match ast_trefs from with f :: _ => [f] | [] => [] end) = []).
-      { destruct from as [|t r]; [reflexivity|]. cbn [ast_trefs map flat_map]. rewrite C_shared_copy_tref. reflexivity. }
+      assert (HJ := H2 (match rev (ast_trefs from) with f :: _ => [f] | [] => [] end) 0%nat).
+      assert (Hsh : flat_map C (map shared_copy match rev (ast_trefs from) with f :: _ => [f] | [] => [] end) = []).
+      { destruct (rev (ast_trefs from)) as [|f l] eqn:E; [reflexivity|]. cbn [map flat_map].
+        rewrite (C_shared_copy_trefs from); [reflexivity|]. apply in_rev. rewrite E. left. reflexivity. }
       specialize (HJ Hsh). clear H2 Hsh.
       cbn. rewrite !app_nil_r. fin.
     - (* MSetOp *) cbn [ast_stmt items]. node. cbn. fin.
